@@ -219,6 +219,75 @@ class ChunkCase(object):
         return r
 
 
+class TimedChunkCase(ChunkCase):
+    """The chunks arrive at different times, with timers (keepalive tick, retry timers) firing between
+    them.  Baseline: every packet delivered whole at the instant its last byte arrives."""
+
+    def __init__(self, family, cfg, pname, names, cutsets, wait, gap):
+        ChunkCase.__init__(self, family, cfg, pname, names, cutsets)
+        self.wait, self.gap = wait, gap
+
+    def _run(self, cuts, pkts=None, whole=False):
+        w = World(self.cfg)
+        for s in PRELUDES[self.pname]:
+            w.step(s)
+        if pkts is None:
+            pkts = resolve(w, self.names)
+        raws = [rc.encode(p, 4) for p in pkts]
+        data = b"".join(raws)
+        cuts = sorted(set(c for c in cuts if 0 < c < len(data)))
+        bounds = list(zip([0] + cuts, cuts + [len(data)]))
+        ends, pos = [], 0
+        for r_ in raws:
+            pos += len(r_)
+            ends.append(pos)
+        w.step(("adv", self.wait))
+        for (i, j) in bounds:
+            if whole:
+                blob = b"".join(r_ for r_, e in zip(raws, ends) if i < e <= j)
+            else:
+                blob = data[i:j]
+            if blob:
+                w.step(("raw", 0, blob))
+            w.step(("adv", self.gap))
+        w.step(("adv", 20))
+        return w, pkts, len(data)
+
+    def run(self, monitor):
+        r = C.CaseResult()
+        w0, pkts, n = self._run([], None)
+        cutsets = self.cutsets(n, pkts) if callable(self.cutsets) else self.cutsets
+        stats = {"deciding": 0, "compositions": 0, "distinct_nontrivial": 0, "stream_bytes": n, "timed_compositions": 0}
+        for cuts in cutsets:
+            cuts = [c for c in cuts if 0 < c < n]
+            wb, _, _ = self._run(cuts, pkts, whole=True)
+            base = obs_log(wb.trace, len(PRELUDES[self.pname]))
+            w, _, _ = self._run(cuts, pkts)
+            log = obs_log(w.trace, len(PRELUDES[self.pname]))
+            stats["compositions"] += 1
+            stats["timed_compositions"] += 1
+            stats["deciding"] += 1
+            if any(x[0] in ("wire", "fire", "cb", "tcall") for x in base):
+                stats["distinct_nontrivial"] += 1
+            base = [x for x in base if x[0] != "write"]       # (chunk boundaries differ by construction: compare decoded packets, not writes)
+            log = [x for x in log if x[0] != "write"]
+            d = first_diff(base, log)
+            if d is None and calls_of(w.trace) != calls_of(wb.trace):
+                d = ("timers", calls_of(wb.trace)[:4], calls_of(w.trace)[:4])
+            if d is not None and not r.violations:
+                kind = d[1][0] if isinstance(d[1], tuple) else ("missing" if d[1] is None else str(d[0]))
+                sig = "C03.chunking-changes-behaviour/%s/timed/%s" % (self.pname, kind if d[0] != "timers" else "timers")
+                r.violations.append((sig, "stream %s cut at %r with %.2f s between the chunks behaves differently from whole packets arriving when their last byte does: entry %s: %r vs %r"
+                                     % ("+".join(self.names), cuts[:8], self.gap, d[0], _s(d[1]), _s(d[2])), len(PRELUDES[self.pname])))
+                r.replay = {"kind": "chunk", "family": self.family, "cfg": self.cfg.asdict(), "prelude": self.pname,
+                            "names": list(self.names), "cuts": cuts, "timed": [self.wait, self.gap]}
+        r.evals = stats["compositions"]
+        r.stats = stats
+        r.sample = {"kind": "chunk", "prelude": self.pname, "stream": list(self.names), "bytes": n, "timed": [self.wait, self.gap],
+                    "compositions_in_case": stats["compositions"]}
+        return r
+
+
 def _s(x):
     s = repr(x)
     return s if len(s) < 160 else s[:160] + "..."
@@ -311,7 +380,7 @@ class P03(Plan):
             "length field, byte-at-a-time, seeded random compositions; payloads push the remaining length to 1, 2, 3 (and in thorough 4) bytes; non-trivial = the baseline shows at least "
             "one observable effect; distinct = distinct (stream, composition)")
     assumptions = ["the protocol under test is the pubsubs profile with requests of every kind pending (and a second prelude still waiting for CONNACK)",
-                   "no virtual time passes while the chunks are fed; 20 s pass afterwards"]
+                   "no virtual time passes while the chunks are fed and 20 s pass afterwards, except in the timed families, where the chunks are 1 to 30 s apart so that the keepalive tick, the PINGRESP deadline and retry timers fire between them (baseline there: each packet delivered whole at the instant its last byte arrives)"]
 
     def budget(self, tier):
         return 150 if tier == "quick" else 2400
@@ -358,12 +427,21 @@ class P03(Plan):
                         ("r128", "pingresp", "r256"), ("puback", "r16384", "q0"), ("r384", "r128"), ("pingresp", "r256", "pubrec", "r128")]
         if tier == "thorough":
             long_streams += [("puback", "q1_4b", "pubcomp"), ("q1_4b",)]
+        # chunks that arrive at different times: a keepalive tick (60 s after CONNACK), the PINGRESP deadline, retry timers
+        # (about 4.5 s after the requests were made) fall between them
+        for st in (("q1", "puback"), ("q2", "rel", "pubcomp"), ("suback", "q1", "unsuback", "q0e", "puback"), ("pingresp", "q0", "q0", "pubrec")):
+            for wait, gap in ((59.5, 1.0), (3.9, 1.5), (0.0, 30.0), (118.0, 1.25)):
+                yield TimedChunkCase("timed-1-cuts", cfg, "busy", st, k_cuts(1), wait, gap)
+                yield TimedChunkCase("timed-2-cuts", cfg2, "busy", st, k_cuts(2, 150, seed), wait, gap)
+        yield TimedChunkCase("timed-1-cuts/connecting", cfg, "connecting", ("connack", "q1", "puback", "pubrec"), k_cuts(1), 29.5, 1.0)
         for st in long_streams:
             yield ChunkCase("header-cuts/long", cfg, "busy", st, header_cuts)
             yield ChunkCase("length-cuts/long", cfg, "busy", st, length_cuts)
             yield ChunkCase("random-cuts/long", cfg, "busy", st, random_cuts(60 if tier == "quick" else 600, seed))
 
     def case_from_replay(self, d):
+        if d.get("timed"):
+            return TimedChunkCase(d["family"], Cfg(**d["cfg"]), d["prelude"], tuple(d["names"]), [d["cuts"]], d["timed"][0], d["timed"][1])
         return ChunkCase(d["family"], Cfg(**d["cfg"]), d["prelude"], tuple(d["names"]), [d["cuts"]])
 
     def shrink(self, rep, sig):
@@ -564,6 +642,12 @@ def arg_table():
         con("keepalive=%d" % ka, exp, keepalive=ka)
     con("v31 id 24 chars", "reject", cid="c" * 24, version=V31)
     con("v31 id 23 chars", "accept", cid="c" * 23, version=V31)
+    # the limit is in characters: ids of at most 23 characters whose UTF-8 form is longer than 23 bytes
+    con("v31 id 12 two-byte chars", "accept", cid="\u00e9" * 12, version=V31)
+    con("v31 id 23 two-byte chars", "accept", cid="\u00e9" * 23, version=V31)
+    con("v31 id 8 three-byte chars", "accept", cid="\u6e29" * 8, version=V31)
+    con("v31 id 23 non-BMP chars", "accept", cid="\U0001f321" * 23, version=V31)
+    con("v31 id 24 two-byte chars", "reject", cid="\u00e9" * 24, version=V31)
     con("v311 id 24 chars", "accept", cid="c" * 24, version=V311)
     con("unknown version", "reject", version={"level": 5, "tag": "MQTT"})
     con("version None", "reject", version=None)
